@@ -39,6 +39,7 @@ class Cfg:
     def __init__(s, flavour, policy, limit=False, ttl=False, mem=False, fw=None):
         s.flavour = flavour; s.policy = policy; s.has_limit = limit; s.has_ttl = ttl; s.has_mem = mem; s.fw = fw
         s.limit = s.ttl = s.mem = None; s.real = False
+        s.extreme = None          # 'ttl' | 'limit' | 'mem': that configuration value ranges over the top of its type instead of the ordinary range
     def tag(s):
         return f"{s.flavour}/{s.policy}/{'L' if s.has_limit else '-'}{'T' if s.has_ttl else '-'}{'M' if s.has_mem else '-'}" + (f'/w{s.fw}' if s.fw is not None else '')
 
@@ -53,11 +54,17 @@ class Harness:
         ctx.real_time = cfg.real
         # ---- configuration terms
         if cfg.has_limit:
-            cfg.limit = z3.Int(name + '_limit'); ctx.add(z3.And(cfg.limit >= 1, cfg.limit <= (nmax if nmax is not None else n + 2), cfg.limit >= n))      # full and non-full caches
+            cfg.limit = z3.Int(name + '_limit')
+            if cfg.extreme == 'limit': ctx.add(z3.And(cfg.limit >= 2 ** 63 - 1, cfg.limit <= 2 ** 64 - 1))
+            else: ctx.add(z3.And(cfg.limit >= 1, cfg.limit <= (nmax if nmax is not None else n + 2), cfg.limit >= n))      # full and non-full caches
         if cfg.has_ttl:
-            cfg.ttl = RI(name + '_ttl'); ctx.add(z3.And(cfg.ttl >= (0 if cfg.policy == 'TLRU' else 1), cfg.ttl <= 2 ** 32))       # ttl = 0 (TLRU): the age fraction divides by it
+            cfg.ttl = RI(name + '_ttl')
+            if cfg.extreme == 'ttl': ctx.add(z3.And(cfg.ttl >= 2 ** 62, cfg.ttl <= 2 ** 64 - 1))          # "never expires" spellings: i64::MAX, u64::MAX
+            else: ctx.add(z3.And(cfg.ttl >= (0 if cfg.policy == 'TLRU' else 1), cfg.ttl <= 2 ** 32))       # ttl = 0 (TLRU): the age fraction divides by it
         if cfg.has_mem:
-            cfg.mem = z3.Int(name + '_maxmem'); ctx.add(z3.And(cfg.mem >= 0, cfg.mem <= SIZE_MAX))
+            cfg.mem = z3.Int(name + '_maxmem')
+            if cfg.extreme == 'mem': ctx.add(z3.And(cfg.mem >= 2 ** 63 - 1, cfg.mem <= 2 ** 64 - 1))
+            else: ctx.add(z3.And(cfg.mem >= 0, cfg.mem <= SIZE_MAX))
         # ---- clock
         if fl == 'A':
             s.now0 = RI(name + '_now0s'); ctx.add(z3.And(s.now0 >= 0, s.now0 <= 2 ** 36)); ctx.sys_vars.append(s.now0)
